@@ -527,4 +527,136 @@ theorem ordMap_spec (comb : List V → V) (S : List (Assoc V)) (hs : AllSorted S
     intro a b ha _ hab
     exact ordOf_lt _ a.1 b.1 (hmem a ha) hab
 
+/-! ### the per-round ordinal tables (columnar `TermMerger`) -/
+
+/-- what one round reports for one input: the position of the key in the remaining input,
+offset by what was already consumed -/
+def roundRow (k : Key) (pos : List Nat) (S : List (Assoc V)) : List (Option Nat) :=
+  (pos.zip S).map (fun p => (termOrd p.2 k).map (· + p.1))
+
+def headIs (k : Key) (m : Assoc V) : Bool :=
+  match m with | e :: _ => decide (e.1 = k) | [] => false
+
+theorem popWho_eq (k : Key) (S : List (Assoc V)) : popWho k S = S.map (headIs k) := rfl
+
+theorem termOrd_head (m : Assoc V) (hs : SortedMap m) (k : Key) (hge : ∀ e ∈ m, lexLe k e.1 = true) :
+    termOrd m k = if headIs k m then some 0 else none := by
+  cases m with
+  | nil => rfl
+  | cons e r =>
+    unfold termOrd headIs
+    rw [List.findIdx?_cons]
+    by_cases h : e.1 = k
+    · simp [h]
+    · have hne : (e.1 == k) = false := by simpa using h
+      simp only [hne, Bool.false_eq_true, if_false, h, decide_false]
+      have hk : lexLt k e.1 = true := by
+        rcases lexLe_iff.mp (hge e (by simp)) with h' | h'
+        · exact h'
+        · exact absurd h'.symm h
+      have : r.findIdx? (fun x => x.1 == k) = none := by
+        rw [List.findIdx?_eq_none_iff]
+        intro x hx
+        have : lexLt e.1 x.1 = true :=
+          StrictInc.head_lt (a := e.1) (ks := keys r) (by simpa [keys, SortedMap] using hs) _
+            (List.mem_map_of_mem hx)
+        have := lexLt_ne (lexLt_trans hk this)
+        simpa using fun h' => this h'.symm
+      simp [this]
+
+theorem termOrd_popOne (m : Assoc V) (k x : Key) (hx : x ≠ k) (p : Nat) :
+    (termOrd (popOne k m) x).map (· + (if headIs k m then p + 1 else p)) = (termOrd m x).map (· + p) := by
+  cases m with
+  | nil => rfl
+  | cons e r =>
+    rw [popOne_cons]
+    unfold headIs
+    by_cases h : e.1 = k
+    · simp only [h, if_true, decide_true]
+      unfold termOrd
+      rw [List.findIdx?_cons]
+      have : (e.1 == x) = false := by rw [h]; simpa using fun h' => hx h'.symm
+      simp only [this, Bool.false_eq_true, if_false]
+      cases r.findIdx? (fun e => e.1 == x) with
+      | none => rfl
+      | some j => simp; omega
+    · simp [h]
+
+/-- the row of the current round -/
+theorem round_row_now (k : Key) (pos : List Nat) (S : List (Assoc V)) (hlen : pos.length = S.length)
+    (hs : AllSorted S) (hge : ∀ m ∈ S, ∀ e ∈ m, lexLe k e.1 = true) :
+    (pos.zip (popWho k S)).map (fun p => if p.2 then some p.1 else none) = roundRow k pos S := by
+  rw [popWho_eq]
+  unfold roundRow
+  induction S generalizing pos with
+  | nil => simp
+  | cons m rest ih =>
+    cases pos with
+    | nil => simp at hlen
+    | cons p ps =>
+      simp only [List.map_cons, List.zip_cons_cons]
+      congr 1
+      · rw [termOrd_head m (hs m (by simp)) k (hge m (by simp))]
+        cases headIs k m <;> simp
+      · exact ih ps (by simpa using hlen) (fun x hx => hs x (List.mem_cons_of_mem _ hx))
+          (fun x hx => hge x (List.mem_cons_of_mem _ hx))
+
+/-- later keys: positions and remaining inputs move together -/
+theorem round_row_later (k x : Key) (hx : x ≠ k) (pos : List Nat) (S : List (Assoc V))
+    (hlen : pos.length = S.length) :
+    roundRow x ((pos.zip (popWho k S)).map (fun p => if p.2 then p.1 + 1 else p.1)) (S.map (popOne k))
+      = roundRow x pos S := by
+  rw [popWho_eq]
+  unfold roundRow
+  induction S generalizing pos with
+  | nil => simp
+  | cons m rest ih =>
+    cases pos with
+    | nil => simp at hlen
+    | cons p ps =>
+      simp only [List.map_cons, List.zip_cons_cons]
+      congr 1
+      · exact termOrd_popOne m k x hx p
+      · exact ih ps (by simpa using hlen)
+
+/-- the per-round tables of the heap merge: round `j` reports, for every input, the old ordinal of
+the `j`-th merged key in that input (`none` if the input does not hold it) -/
+theorem kmergeOrds_eq (comb : List V → V) (fuel : Nat) (pos : List Nat) (S : List (Assoc V))
+    (hs : AllSorted S) (hf : totalLen S ≤ fuel) (hlen : pos.length = S.length) :
+    kmergeOrds fuel pos S = (keys (mergeSpec comb S)).map (fun k => roundRow k pos S) := by
+  induction fuel generalizing pos S with
+  | zero =>
+    simp only [kmergeOrds]
+    rw [all_empty_mergeSpec comb S (totalLen_zero S (by omega))]; rfl
+  | succ fuel ih =>
+    simp only [kmergeOrds]
+    cases hk : minKey (heads S) with
+    | none =>
+      simp only
+      rw [all_empty_mergeSpec comb S (heads_nil S ((minKey_none _).mp hk))]; rfl
+    | some k =>
+      simp only
+      have hge := min_le_all S hs k hk
+      have hlt := totalLen_popRest_lt S k (minKey_spec _ k hk).1
+      have hsorted : StrictInc (keys (mergeSpec comb S)) := by
+        rw [keys_mergeSpec]; exact unionKeys_sorted _
+      rw [mergeSpec_round comb S hs k hk] at hsorted ⊢
+      have hcons : keys ((k, comb (popValues k S)) :: mergeSpec comb (popRest k S))
+          = k :: keys (mergeSpec comb (popRest k S)) := by simp [keys]
+      rw [hcons] at hsorted ⊢
+      rw [List.map_cons]
+      have hpos' : ((pos.zip (popWho k S)).map (fun p => if p.2 then p.1 + 1 else p.1)).length
+          = (popRest k S).length := by
+        simp [popWho_eq, popRest_eq, hlen]
+      rw [ih _ (popRest k S) (popRest_sorted S hs k) (by omega) hpos', round_row_now k pos S hlen hs hge]
+      congr 1
+      apply List.map_congr_left
+      intro x hx
+      have hxk : x ≠ k := by
+        intro e; subst e
+        have := ((strictInc_cons_iff x _).mp hsorted).1 x hx
+        rw [lexLt_irrefl] at this; cases this
+      rw [popRest_eq]
+      exact round_row_later k x hxk pos S hlen
+
 end TantivyModel.SSTable
